@@ -46,6 +46,9 @@ type Options struct {
 	// TwoStep gives every Write a begin and an end scheduling point, so that
 	// overlapping calls are observable.
 	TwoStep bool
+	// SlowClose gives Close a second scheduling point before it returns: the end is already closed
+	// (pending I/O is released) while the Close call is still in progress.
+	SlowClose bool
 	// EOFWithData: a Read that drains the last bytes of a stream whose writer has closed returns
 	// them together with io.EOF (as io.Reader allows and buffered/TLS-style transports do).
 	EOFWithData bool
@@ -304,6 +307,9 @@ func (e *End) Close() error {
 		e.Closes++
 		e.envClose()
 	})
+	if e.p.opts.SlowClose {
+		e.p.mon.Do(e.Name+".Close.ret", nil, func() {})
+	}
 	return nil
 }
 
